@@ -61,6 +61,37 @@ func (b *Builder) RemovePipe(typ, id string) *Builder {
 	return b
 }
 
+// RemovePipeAndNodes removes pipeline typ/id with RemovePipelineAndNodes (its nodes that no other
+// pipeline lists are closed and unregistered by the broker).
+func (b *Builder) RemovePipeAndNodes(typ, id string) *Builder {
+	b.sc.History = append(b.sc.History, HistOp{Op: "rmpipenodes", ID: id, Type: typ})
+	var ids []string
+	for _, h := range b.sc.History {
+		if h.Op == "pipe" && h.Type == typ && h.ID == id {
+			ids = h.Nodes
+		}
+	}
+	b.dropChain(typ, id)
+	for _, nid := range ids {
+		used := false
+		for _, h := range b.sc.History {
+			if h.Op == "pipe" {
+				if _, live := b.pipes[h.Type+"/"+h.ID]; live {
+					for _, x := range h.Nodes {
+						if x == nid {
+							used = true
+						}
+					}
+				}
+			}
+		}
+		if !used {
+			delete(b.nodeID, nid)
+		}
+	}
+	return b
+}
+
 func (b *Builder) dropChain(typ, id string) {
 	key := typ + "/" + id
 	i, ok := b.pipes[key]
